@@ -611,6 +611,11 @@ C17_accept(prev, step) ==
   (step.call.op = "rerun" /\ step.ret = "ok") =>
      /\ prev.wf \in Completed
      /\ \A i \in 1..Len(step.call.arg) : HasRec(prev, step.call.arg[i][1], step.call.arg[i][2])
+(* a rerun request either is accepted or is rejected with one of the documented errors and no effect *)
+C17_reject(prev, step) ==
+  (step.call.op = "rerun" /\ step.ret # "ok") =>
+     /\ step.ret \in Rejections
+     /\ Persisted(step.obs) = Persisted(prev)
 C17_resuming(step) == (step.call.op = "rerun" /\ step.ret = "ok") => step.obs.wf = "resuming"
 (* exactly the requested executions (and work that was still due) are offered; each requested one is *)
 C17_exact(d, h0, h1, step) ==
@@ -703,6 +708,7 @@ Failing(d, h0, h1, prev, step) ==
   FP("C13", "C13_delay",           C13_delay(d, step)) \cup
   FP("C15", "C15_internal_error",  C15_internal_error(step)) \cup
   FP("C17", "C17_accept",          C17_accept(prev, step)) \cup
+  FP("C17", "C17_reject",          C17_reject(prev, step)) \cup
   FP("C17", "C17_resuming",        C17_resuming(step)) \cup
   FP("C17", "C17_exact",           C17_exact(d, h0, h1, step)) \cup
   FP("C17", "C17_no_repeat",       C17_no_repeat(d, h0, prev, step)) \cup
